@@ -47,9 +47,18 @@ def main(argv):
         if o not in undischarged and (vlib.deps_of(o) & set(b.failed_files)):
             undischarged.append(o)
     proof_broken = []
-    if b.translator_error and getattr(mod, 'USES_TRANSLATOR', False):
-        proof_broken.append('translator failed closed: ' + b.translator_error)
-    if undischarged:
+    stale = []
+    if b.translator_errors:
+        # a Gen file that could not be regenerated is stale: every obligation that depends on it is no longer checked against the source
+        hit = sorted(g for g in b.translator_errors if g == 'theories/Gen/*' or g in needed)
+        if hit or ('theories/Gen/*' in b.translator_errors and getattr(mod, 'USES_TRANSLATOR', False)):
+            stale = [o for o in obs if 'theories/Gen/*' in b.translator_errors or (vlib.deps_of(o) & set(hit))]
+            for o in stale:
+                if o not in undischarged:
+                    undischarged.append(o)
+            proof_broken.append('translator failed closed for %s: %s ; obligations no longer checked against the current source: %s'
+                                % (hit, '; '.join(b.translator_errors[g] for g in hit) or b.translator_error, stale))
+    if [o for o in undischarged if o not in stale]:
         errs = []
         for f in failed_needed or undischarged:
             i = b.log.find(f)
